@@ -73,7 +73,7 @@ def _run(cmd, cwd, timeout, env=None):
 
 _RE_STATES = re.compile(r"(\d+) states generated, (\d+) distinct states found, (\d+) states left on queue")
 _RE_DEPTH = re.compile(r"The depth of the complete state graph search is (\d+)")
-_RE_COV = re.compile(r"^<(\w+) line (\d+), col \d+ to line \d+, col \d+ of module (\w+)>: (\d+):(\d+)", re.M)
+_RE_COV = re.compile(r"^<(\w+) line (\d+), col \d+ to line \d+, col \d+ of module (\w+)((?: \([\d ]+\))?)>: (\d+):(\d+)", re.M)
 _RE_ERR = re.compile(r"^Error: (.*)$", re.M)
 
 
@@ -92,9 +92,9 @@ def parse_mc_output(out):
     cov = {}
     for m in _RE_COV.finditer(out):
         name = m.group(1)
-        d, g = int(m.group(4)), int(m.group(5))
+        d, g = int(m.group(5)), int(m.group(6))
         # multiple coverage dumps may appear; keep the last (largest)
-        key = "%s@%s:%s" % (name, m.group(3), m.group(2))
+        key = "%s@%s:%s%s" % (name, m.group(3), m.group(2), m.group(4))
         cov[key] = {"action": name, "distinct": d, "generated": g}
     res["coverage"] = cov
     res["errors"] = _RE_ERR.findall(out)
